@@ -164,6 +164,8 @@ def build_catalog():
     entry("pic.crop_right", "pic", "crop_right", lambda r: _fracs(r, -0.5, 1.0), [S("x")], eq_tol(FRAC_Q))
     entry("pic.crop_top", "pic", "crop_top", lambda r: _fracs(r, -0.5, 1.0), [], eq_tol(FRAC_Q))
     entry("pic.crop_bottom", "pic", "crop_bottom", lambda r: _fracs(r, -0.5, 1.0), [], eq_tol(FRAC_Q))
+    for a in ("begin_x", "begin_y", "end_x", "end_y"):
+        entry("cxn." + a, "cxn", a, lambda r: I(r.choice([0, 1, 5000000, r.randint(0, 9000000)])), [S("x")], eq_tol(EMU_Q))
     entry("adj.value", "adj", "0", lambda r: F(r.choice([0.0, 0.5, 1.0, -0.25, 2.5, 0.12345, round(r.random(), 5)])), [S("x")], eq_tol(FRAC_Q))
     # text frame
     for a in ("margin_left", "margin_right", "margin_top", "margin_bottom"):
@@ -266,7 +268,10 @@ def kit_events():
         return dict(box, op="add_chart", type=t, data=d)
     return [
         {"op": "add_slide", "layout": 6},
-        dict(box, op="add_shape", type=9),                                  # 0 autoshape with adjustments (rounded rectangle family)
+        dict(box, op="add_shape", type="ROUNDED_RECTANGLE"),                # 0 autoshape with one adjustment (non-zero default)
+        dict(box, op="add_shape", type="CHEVRON"),                          # 1 second autoshape (gradient / pattern host)
+        dict(box, op="add_connector", type="STRAIGHT", ex=50000, ey=40000),  # flipped in both axes (begin > end)
+        dict(box, op="add_connector", type="ELBOW", x=10, y=20, ex=900000, ey=700000),
         dict(box, op="add_textbox", text="para one\npara two"),
         dict(box, op="add_picture", img=img, src={"via": "stream", "pos": 0}, size="none"),
         dict(box, op="add_table", rows=2, cols=2),
@@ -308,6 +313,8 @@ def locate(prs, obj, a):
     if obj == "adj":
         sh = _shape_of(sl, lambda s: auto(s) and len(s.adjustments) > 0)
         return sh.adjustments
+    if obj == "cxn":
+        return _shape_of(sl, lambda s: type(s).__name__ == "Connector", a.get("i", 0))
     if obj == "pic":
         return _shape_of(sl, lambda s: type(s).__name__ == "Picture")
     tb = lambda s: auto(s) and s.has_text_frame and s.text_frame.text != ""  # noqa: E731
@@ -494,7 +501,7 @@ def _set(w, deck, a):
         v = dec(a["v"])
     except (ValueError, KeyError, AttributeError):
         raise O.Skip("value spec not decodable here")
-    key = "%s|%d" % (a["entry"], a.get("i", 0) if e["obj"] in ("shape", "p", "font", "cell", "col", "row", "barseries", "lineseries", "marker", "gradstop") else 0)
+    key = "%s|%d" % (a["entry"], a.get("i", 0) if e["obj"] in ("shape", "p", "font", "cell", "col", "row", "barseries", "lineseries", "marker", "gradstop", "cxn") else 0)
     before_self = norm(sget(o, e))
     others = read_all(o, e["obj"], e["group"])
     try:
